@@ -33,6 +33,11 @@ def run(tier, seed):
         plans, _ = ntlm.gen(wd, n, 1, 8, seed)
         plans.append({"id": "selftest", "domain": [100, 111, 109], "user": [117, 115, 101, 114], "password": [112, 119, 100], "mode": "password", "flags": ntlm.FLAGS["default"],
                       "sc": [1, 2, 3, 4, 5, 6, 7, 8], "ti": [[2, [68, 0]], [7, [1, 2, 3, 4, 5, 6, 7, 8]], [1, [83, 0]]], "tname": [83, 0]})
+        # names so long that the payload of the AUTHENTICATE message passes 64 KiB while every single field still fits its
+        # 16-bit length: the offsets are 32-bit fields and must keep addressing their fields
+        for j, (nd, nu) in enumerate([(20000, 12600), (20000, 12700), (30000, 2000), (1, 32000), (32000, 1)]):
+            plans.append({"id": "long%d" % j, "domain": [68 + (i % 20) for i in range(nd)], "user": [97 + (i % 26) for i in range(nu)], "password": [112, 119], "mode": "hash" if j % 2 else "password",
+                          "flagclass": "default", "flags": ntlm.FLAGS["default"], "sc": [9, 8, 7, 6, 5, 4, 3, 2], "ti": [[2, [68, 0]], [7, [1, 2, 3, 4, 5, 6, 7, 8]]], "tname": [83, 0]})
         trace = ntlm.run(wd, plans, "c15")
         accepted, rejects = core.tv_all("Trace_Ntlm", trace, "/dev/null", wd, shards=8, max_rejects=5, overrides=True)
         for r in rejects:
